@@ -207,6 +207,13 @@ def run(ctx: Ctx):
                 "the member list of a Grouped AVP is published once it is complete (a search on "
                 "another thread never sees a partly decoded group)", floor=1,
                 constructs=lambda c: c.startswith("AvpGrouped.value"))
+    ctx.include(_c04.run, {"C04-R1"}, "C02-R14",
+                "decoding a message raises nothing but the library's decode errors (an exception of "
+                "another class out of Message.from_bytes / Avp.from_unpacker means that some well-formed "
+                "message - e.g. one with an AVP of an unlisted vendor - cannot be decoded at all, let "
+                "alone re-encoded)", floor=3,
+                constructs=lambda c: c.split(":")[0] in ("Message.from_bytes", "Avp.from_unpacker",
+                                                         "Avp.from_bytes", "MessageHeader.from_bytes"))
     from .common_codec import no_shared_default_objects
     no_shared_default_objects(ctx, "C02-R12", [f_ for f_ in model.all_funcs() if ".message" in f_.module.name
                                                and ".commands." not in f_.module.name],
